@@ -45,11 +45,6 @@ Proof.
       destruct (mem k (keys r)); reflexivity.
 Qed.
 
-Lemma first_occ_gen l : forall acc,
-  fold_left (fun acc k => if mem k acc then acc else acc ++ [k]) l acc
-  = fold_left (fun acc k => if mem k acc then acc else acc ++ [k]) l acc.
-Proof. reflexivity. Qed.
-
 (* the keys of the grouped field set are the response keys in order of first appearance *)
 Lemma group_keys_gen fl : forall g,
   keys (fold_left (fun g kf => add_field (fst kf) (snd kf) g) fl g)
@@ -63,15 +58,636 @@ Qed.
 Lemma group_keys fl : keys (group fl) = first_occ (map fst fl).
 Proof. unfold group, first_occ. rewrite group_keys_gen. reflexivity. Qed.
 
-Lemma add_field_nodup k f g : NoDup (keys g) -> NoDup (keys (add_field k f g)).
+Lemma nodup_snoc (l : list str) k : NoDup l -> ~ In k l -> NoDup (l ++ [k]).
 Proof.
-  intro H. rewrite add_field_keys. destruct (mem k (keys g)) eqn:E; [exact H|].
-  apply mem_not_In in E.
-  apply NoDup_remove_1 with (a := k). rewrite app_nil_r.
-  (* NoDup (keys g ++ [k]) *)
-  clear f. induction (keys g) as [|x l IH]; cbn.
+  induction l as [|x l IH]; cbn; intros H E.
   - constructor; [intros []|constructor].
   - inversion H; subst. constructor.
     + rewrite in_app_iff. intros [HI|[HE|[]]]; [contradiction|]. subst. apply E. left. reflexivity.
     + apply IH; [assumption|]. intro HI. apply E. right. exact HI.
+Qed.
+
+Lemma add_field_nodup k f g : NoDup (keys g) -> NoDup (keys (add_field k f g)).
+Proof.
+  intro H. rewrite add_field_keys. destruct (mem k (keys g)) eqn:E; [exact H|].
+  apply mem_not_In in E. apply nodup_snoc; assumption.
+Qed.
+
+(* ------------------------------------------------------------------ CollectFields *)
+
+Section CollectSim.
+  Variable s : schema.
+  Variable frags : list fragment.
+  Variable cv : list (str * value).
+  Variable tn : str.
+  Variables A B : Type.
+  Variable addA : str -> fieldsel -> A -> A.
+  Variable addB : str -> fieldsel -> B -> B.
+  Variable R : A -> B -> Prop.
+  Hypothesis Radd : forall k f a b, R a b -> R (addA k f a) (addB k f b).
+
+  Definition Rst (x : option (list str * A)) (y : option (list str * B)) : Prop :=
+    match x, y with
+    | None, None => True
+    | Some (v, a), Some (v', b) => v = v' /\ R a b
+    | _, _ => False
+    end.
+
+  Lemma collect_list_sim recA recB :
+    (forall sels v a b, R a b -> Rst (recA sels (v, a)) (recB sels (v, b))) ->
+    forall sels v a b, R a b ->
+      Rst (collect_list s frags cv tn A addA recA sels (v, a))
+          (collect_list s frags cv tn B addB recB sels (v, b)).
+  Proof.
+    intros Hrec. induction sels as [|sel rest IH]; intros v a b HR.
+    - cbn. split; [reflexivity|exact HR].
+    - destruct sel as [al name args dirs sub | name dirs | tc dirs sub]; cbn [collect_list fst snd].
+      + destruct (should_include cv dirs); [apply IH; apply Radd; exact HR | apply IH; exact HR].
+      + destruct (negb (should_include cv dirs)); [apply IH; exact HR|].
+        destruct (mem name v); [apply IH; exact HR|].
+        destruct (find_frag name frags) as [fr|]; [|apply IH; exact HR].
+        destruct (cond_matches s (fr_cond fr) tn); [|apply IH; exact HR].
+        specialize (Hrec (fr_sels fr) (name :: v) a b HR).
+        destruct (recA (fr_sels fr) (name :: v, a)) as [[v1 a1]|],
+                 (recB (fr_sels fr) (name :: v, b)) as [[v2 b1]|]; cbn in Hrec;
+          try contradiction; [|exact I].
+        destruct Hrec as [-> HR1]. apply IH. exact HR1.
+      + destruct (should_include cv dirs && match tc with Some c => cond_matches s c tn | None => true end).
+        * specialize (Hrec sub v a b HR).
+          destruct (recA sub (v, a)) as [[v1 a1]|], (recB sub (v, b)) as [[v2 b1]|]; cbn in Hrec;
+            try contradiction; [|exact I].
+          destruct Hrec as [-> HR1]. apply IH. exact HR1.
+        * apply IH. exact HR.
+  Qed.
+
+  Lemma collect_gen_sim fuel : forall sels v a b, R a b ->
+    Rst (collect_gen s frags cv tn A addA fuel sels (v, a))
+        (collect_gen s frags cv tn B addB fuel sels (v, b)).
+  Proof.
+    induction fuel as [|f IH]; intros sels v a b HR; cbn [collect_gen].
+    - exact I.
+    - apply collect_list_sim; [exact IH | exact HR].
+  Qed.
+End CollectSim.
+
+Lemma group_snoc fl k f : group (fl ++ [(k, f)]) = add_field k f (group fl).
+Proof. unfold group. rewrite fold_left_app. reflexivity. Qed.
+
+(* CollectFields = grouping, in order, of the sequence of fields it visits *)
+Lemma collect_is_group_of_flat s frags cv tn fuel sels :
+  match collect_flat s frags cv tn fuel sels ([], []) with
+  | None => collect s frags cv tn fuel sels ([], []) = None
+  | Some (v, fl) => collect s frags cv tn fuel sels ([], []) = Some (v, group fl)
+  end.
+Proof.
+  pose proof (collect_gen_sim s frags cv tn (list (str * fieldsel)) (list (str * list fieldsel))
+                (fun k f l => l ++ [(k, f)]) add_field (fun fl g => g = group fl)) as H.
+  specialize (H (fun k f a b Hab => eq_trans (f_equal (add_field k f) Hab) (eq_sym (group_snoc a k f)))).
+  specialize (H fuel sels [] [] [] eq_refl).
+  unfold Rst in H.
+  destruct (collect_flat s frags cv tn fuel sels ([], [])) as [[v fl]|] eqn:E1;
+    unfold collect_flat in E1; rewrite E1 in H;
+    destruct (collect s frags cv tn fuel sels ([], [])) as [[v' g]|] eqn:E2;
+    unfold collect, grouped in E2; unfold grouped in H; rewrite E2 in H; try contradiction; [|reflexivity].
+  destruct H as [-> ->]. reflexivity.
+Qed.
+
+(* the keys of a collected field set are distinct *)
+Lemma collect_nodup s frags cv tn fuel sels v g :
+  collect s frags cv tn fuel sels ([], []) = Some (v, g) -> NoDup (keys g).
+Proof.
+  intro H.
+  pose proof (collect_gen_sim s frags cv tn (list (str * list fieldsel)) (list (str * list fieldsel))
+                add_field add_field (fun a b => a = b /\ NoDup (keys a))) as S.
+  assert (Hadd : forall k f (a b : grouped), a = b /\ NoDup (keys a) ->
+                 add_field k f a = add_field k f b /\ NoDup (keys (add_field k f a))).
+  { intros k f a b [-> Hn]. split; [reflexivity | apply add_field_nodup; exact Hn]. }
+  specialize (S Hadd fuel sels [] [] [] (conj eq_refl (NoDup_nil _))).
+  unfold collect, grouped in H. unfold grouped in S. rewrite H in S. cbn in S. destruct S as [_ [_ Hn]]. exact Hn.
+Qed.
+
+(* ------------------------------------------------------------------ execution invariants *)
+
+Lemma lookup_In_keys {A} k (l : list (str * A)) v : lookup k l = Some v -> In k (keys l).
+Proof.
+  induction l as [|[k' v'] r IH]; cbn; [discriminate|].
+  destruct (str_eqb k k') eqn:E.
+  - intros _. left. apply str_eqb_eq in E. congruence.
+  - intro H. right. apply IH. exact H.
+Qed.
+
+Section Invariants.
+  Variable s : schema.
+  Variable frags : list fragment.
+  Variable cv : list (str * value).
+
+  Definition errs_ok (j : json) (es : list path) : Prop := Forall (fun e => hits_null e j = true) es.
+
+  Definition out_ok (P : json -> Prop) (o : out) : Prop :=
+    let '(r, es, cs) := o in
+    Forall (call_ok s cv) cs /\
+    match r with
+    | CVal j => P j /\ errs_ok j es
+    | CErr => es <> []
+    end.
+
+  Lemma out_ok_weaken (P Q : json -> Prop) o : (forall j, P j -> Q j) -> out_ok P o -> out_ok Q o.
+  Proof.
+    destruct o as [[r es] cs]. intros H [Hc Hr]. split; [exact Hc|].
+    destruct r; [|exact Hr]. destruct Hr as [Hp He]. split; [apply H; exact Hp | exact He].
+  Qed.
+
+  Lemma call_ok_pre seg cs : Forall (call_ok s cv) cs -> Forall (call_ok s cv) (pre_calls seg cs).
+  Proof.
+    unfold pre_calls. intro H. apply Forall_map. eapply Forall_impl; [|exact H].
+    intros [[p f] a] Hc. exact Hc.
+  Qed.
+
+  Lemma pre_errs_nonempty seg es : es <> [] -> pre_errs seg es <> [].
+  Proof. destruct es; cbn; [congruence | discriminate]. Qed.
+
+  (* catching a field error at a nullable position yields a well-shaped null *)
+  Lemma catch_ok t sels o :
+    out_ok (shaped s frags cv t sels) o -> out_ok (shaped s frags cv t sels) (catch t o).
+  Proof.
+    destruct o as [[r es] cs]. destruct r as [j|]; cbn [catch]; [trivial|].
+    destruct (is_nonnull t) eqn:E; [trivial|].
+    intros [Hc _]. split; [exact Hc|]. split.
+    - apply sh_null. exact E.
+    - apply Forall_forall. intros e _. destruct e; reflexivity.
+  Qed.
+
+  (* ---- the loop over list items ---- *)
+  Definition hits_from (i : nat) (js : list json) (e : path) : Prop :=
+    match e with
+    | PIdx i' :: r => (i <= i')%nat /\ exists j, nth_error js (i' - i) = Some j /\ hits_null r j = true
+    | _ => False
+    end.
+
+  Lemma complete_items_ok (P : json -> Prop) cf : forall items i r es cs,
+    (forall x o, In x items -> cf x = Some o -> out_ok P o) ->
+    complete_items cf items i = Some (r, es, cs) ->
+    Forall (call_ok s cv) cs /\
+    match r with
+    | Some js => Forall P js /\ Forall (hits_from i js) es
+    | None => es <> []
+    end.
+  Proof.
+    induction items as [|x rest IH]; intros i r es cs Hcf H; cbn [complete_items] in H.
+    - inversion H; subst. repeat split; constructor.
+    - destruct (cf x) as [[[rx esx] csx]|] eqn:Ex; [|discriminate].
+      pose proof (Hcf x _ (or_introl eq_refl) Ex) as Hx. cbn in Hx. destruct Hx as [Hcx Hrx].
+      destruct rx as [j|].
+      + destruct (complete_items cf rest (S i)) as [[[r' es'] cs']|] eqn:Er; [|discriminate].
+        inversion H; subst; clear H.
+        destruct (IH (S i) r' es' cs' (fun y o Hy => Hcf y o (or_intror Hy)) Er) as [Hc' Hr'].
+        split; [apply Forall_app; split; [apply call_ok_pre; exact Hcx | exact Hc']|].
+        destruct r' as [js|]; cbn [option_map].
+        * destruct Hrx as [Hp He]. destruct Hr' as [Hps Hes]. split; [constructor; assumption|].
+          apply Forall_app; split.
+          -- unfold pre_errs. apply Forall_map. eapply Forall_impl; [|exact He].
+             intros e Hn. cbn. split; [lia|]. exists j. rewrite Nat.sub_diag. split; [reflexivity|exact Hn].
+          -- eapply Forall_impl; [|exact Hes]. intros e. unfold hits_from.
+             destruct e as [|[k|i'] e']; try tauto. intros [Hle [j' [Hn Hh]]].
+             split; [lia|]. exists j'. split; [|exact Hh].
+             replace (i' - i)%nat with (S (i' - S i)) by lia. exact Hn.
+        * intro Hnil. apply app_eq_nil in Hnil. destruct Hnil as [_ Hnil]. apply Hr'. exact Hnil.
+      + inversion H; subst; clear H. split; [apply call_ok_pre; exact Hcx|].
+        apply pre_errs_nonempty. exact Hrx.
+  Qed.
+
+  (* ---- the loop over the grouped field set ---- *)
+  Definition field_shape (rt : str) (fs : list fieldsel) (j : json) : Prop :=
+    match fs with
+    | [] => False
+    | f1 :: _ =>
+      (str_eqb (fs_name f1) n_typename = true /\ j = JStr rt) \/
+      (str_eqb (fs_name f1) n_typename = false /\
+       exists fd, lookup_field s rt (fs_name f1) = Some fd /\
+                  shaped s frags cv (f_type fd) (merged_sels fs) j)
+    end.
+
+  Definition skip_ok (rt : str) (fs : list fieldsel) : Prop :=
+    match fs with
+    | [] => True
+    | f1 :: _ => str_eqb (fs_name f1) n_typename = false /\ lookup_field s rt (fs_name f1) = None
+    end.
+
+  Lemma errs_ok_cons_other k j kvs es :
+    ~ In k (keys kvs) -> errs_ok (JObj kvs) es -> errs_ok (JObj ((k, j) :: kvs)) es.
+  Proof.
+    intros Hk. unfold errs_ok. apply Forall_impl. intros e.
+    destruct e as [|[k'|i] r]; cbn [hits_null]; try discriminate.
+    - cbn [lookup]. destruct (lookup k' kvs) as [j'|] eqn:El; [|discriminate].
+      destruct (str_eqb k' k) eqn:E.
+      + apply str_eqb_eq in E. subst. apply lookup_In_keys in El. contradiction.
+      + trivial.
+  Qed.
+
+  Lemma exec_groups_ok rt ef : forall g r es cs,
+    NoDup (keys g) ->
+    (forall fs o, ef fs = Some (FRes o) -> out_ok (field_shape rt fs) o) ->
+    (forall fs, ef fs = Some FSkip -> skip_ok rt fs) ->
+    exec_groups ef g = Some (r, es, cs) ->
+    Forall (call_ok s cv) cs /\
+    match r with
+    | Some kvs => shaped_fields s frags cv rt g kvs /\ errs_ok (JObj kvs) es /\
+                  (forall k, In k (keys kvs) -> In k (keys g))
+    | None => es <> []
+    end.
+  Proof.
+    induction g as [|[k fs] rest IH]; intros r es cs Hnd Hres Hskip H; cbn [exec_groups] in H.
+    - inversion H; subst. split; [constructor|]. split; [constructor|]. split; [constructor|].
+      intros k [].
+    - cbn [keys map fst] in Hnd. inversion Hnd as [|? ? Hnotin Hnd']; subst.
+      destruct (ef fs) as [[|[[rx esx] csx]]|] eqn:Ef; [| |discriminate].
+      + (* skipped field *)
+        destruct (IH r es cs Hnd' Hres Hskip H) as [Hc Hr]. split; [exact Hc|].
+        destruct r as [kvs|]; [|exact Hr]. destruct Hr as [Hsf [He Hk]].
+        split; [|split; [exact He | intros k' Hin; right; apply Hk; exact Hin]].
+        pose proof (Hskip fs Ef) as Hs. destruct fs as [|f1 fs']; cbn in Hs.
+        * apply shf_empty. exact Hsf.
+        * destruct Hs as [Hs1 Hs2]. apply shf_unknown; assumption.
+      + pose proof (Hres fs _ Ef) as Hx. cbn in Hx. destruct Hx as [Hcx Hrx].
+        destruct rx as [j|].
+        * destruct (exec_groups ef rest) as [[[r' es'] cs']|] eqn:Er; [|discriminate].
+          inversion H; subst; clear H.
+          destruct (IH r' es' cs' Hnd' Hres Hskip eq_refl) as [Hc' Hr'].
+          split; [apply Forall_app; split; [apply call_ok_pre; exact Hcx | exact Hc']|].
+          destruct r' as [kvs|]; cbn [option_map].
+          -- destruct Hrx as [Hp He]. destruct Hr' as [Hsf [Hes Hk]].
+             assert (Hnk : ~ In k (keys kvs)) by (intro Hin; apply Hnotin; apply Hk; exact Hin).
+             split; [|split].
+             ++ destruct fs as [|f1 fs']; [destruct Hp|]. cbn in Hp.
+                destruct Hp as [[Ht ->]|[Ht [fd [Hl Hsh]]]].
+                ** apply shf_typename; assumption.
+                ** eapply shf_field; eassumption.
+             ++ apply Forall_app; split.
+                ** unfold pre_errs. apply Forall_map. eapply Forall_impl; [|exact He].
+                   intros e Hn. cbn [hits_null lookup]. rewrite str_eqb_refl. exact Hn.
+                ** apply errs_ok_cons_other; assumption.
+             ++ intros k' [<-|Hin]; [left; reflexivity | right; apply Hk; exact Hin].
+          -- intro Hnil. apply app_eq_nil in Hnil. destruct Hnil as [_ Hnil]. apply Hr'. exact Hnil.
+        * inversion H; subst; clear H. split; [apply call_ok_pre; exact Hcx|].
+          apply pre_errs_nonempty. exact Hrx.
+  Qed.
+
+  Lemma raise_ok P : out_ok P raise_here.
+  Proof. cbn. split; [constructor | discriminate]. Qed.
+
+  Lemma null_ok t sels : is_nonnull t = false -> out_ok (shaped s frags cv t sels) (CVal JNull, [], []).
+  Proof. intro H. cbn. split; [constructor|]. split; [apply sh_null; exact H | constructor]. Qed.
+
+  Lemma complete_leaf_json td l j : complete_leaf td l = Some j -> leaf_json td j = true.
+  Proof.
+    destruct td as [sc|vals| | |]; destruct l; cbn; try discriminate;
+      try (destruct sc; cbn; try discriminate).
+    all: try (intro H; inversion H; subst; reflexivity).
+    - destruct (in_int_range z) eqn:E; [|discriminate]. intro H; inversion H; subst. exact E.
+    - destruct (mem s0 vals) eqn:E; [|discriminate]. intro H; inversion H; subst. exact E.
+  Qed.
+
+  Definition sels_shape (rt : str) (sels : list selection) (j : json) : Prop :=
+    exists kvs, j = JObj kvs /\ shaped_obj s frags cv rt sels kvs.
+
+  Lemma hits_from_zero js es : Forall (hits_from 0 js) es -> errs_ok (JList js) es.
+  Proof.
+    apply Forall_impl. intros e. unfold hits_from. destruct e as [|[k|i] r]; try tauto.
+    intros [_ [j [Hn Hh]]]. cbn [hits_null]. rewrite Nat.sub_0_r in Hn. rewrite Hn. exact Hh.
+  Qed.
+
+  Lemma is_object_of_lookup n fs ifs : lookup_type s n = Some (TObject fs ifs) -> is_object s n = true.
+  Proof. unfold is_object. intros ->. reflexivity. Qed.
+
+
+  (* unfolding equations of the mutually recursive functions *)
+  Lemma exec_sels_S f tn obj sels :
+    exec_sels s frags cv (S f) tn obj sels =
+    match collect s frags cv tn f sels ([], []) with
+    | None => None
+    | Some (_, g) =>
+      match exec_groups (exec_field s frags cv f tn obj) g with
+      | None => None
+      | Some (Some kvs, es, cs) => Some (CVal (JObj kvs), es, cs)
+      | Some (None, es, cs) => Some (CErr, es, cs)
+      end
+    end.
+  Proof. reflexivity. Qed.
+
+  Lemma exec_field_S f tn obj fs :
+    exec_field s frags cv (S f) tn obj fs =
+    match fs with
+    | [] => Some FSkip
+    | f1 :: _ =>
+      if str_eqb (fs_name f1) n_typename then Some (FRes (CVal (JStr tn), [], []))
+      else
+        match lookup_field s tn (fs_name f1) with
+        | None => Some FSkip
+        | Some fd =>
+          match coerce_args s cv (f_args fd) (fs_args f1) with
+          | None => Some (FRes (catch (f_type fd) raise_here))
+          | Some args =>
+            match complete s frags cv f (f_type fd) (merged_sels fs)
+                    match lookup (fs_name f1) obj with Some d => d | None => DNull end with
+            | None => None
+            | Some (r, es, cs) =>
+                Some (FRes (catch (f_type fd) (r, es, ([], fs_name f1, args) :: cs)))
+            end
+          end
+        end
+    end.
+  Proof. reflexivity. Qed.
+
+  Lemma complete_S f t sels d :
+    complete s frags cv (S f) t sels d =
+    match d with
+    | DRaise => Some raise_here
+    | _ =>
+      match t with
+      | TNonNull t' =>
+          match complete s frags cv f t' sels d with
+          | None => None
+          | Some (CVal JNull, es, cs) => Some (CErr, es ++ [[]], cs)
+          | Some o => Some o
+          end
+      | TList it =>
+          match d with
+          | DNull => Some (CVal JNull, [], [])
+          | DList items =>
+              match complete_items (fun x => option_map (catch it) (complete s frags cv f it sels x)) items O with
+              | None => None
+              | Some (Some js, es, cs) => Some (CVal (JList js), es, cs)
+              | Some (None, es, cs) => Some (CErr, es, cs)
+              end
+          | _ => Some raise_here
+          end
+      | TNamed n =>
+          match d with
+          | DNull => Some (CVal JNull, [], [])
+          | _ =>
+            match lookup_type s n with
+            | Some (TObject _ _) =>
+                match d with
+                | DObj _ flds => exec_sels s frags cv f n flds sels
+                | _ => Some raise_here
+                end
+            | Some (TInterface _) | Some (TUnion _) =>
+                match d with
+                | DObj rt flds =>
+                    if is_object s rt && possible s n rt then exec_sels s frags cv f rt flds sels
+                    else Some raise_here
+                | _ => Some raise_here
+                end
+            | Some td =>
+                match d with
+                | DLeaf l =>
+                    match complete_leaf td l with
+                    | Some j => Some (CVal j, [], [])
+                    | None => Some raise_here
+                    end
+                | _ => Some raise_here
+                end
+            | None => Some raise_here
+            end
+          end
+      end
+    end.
+  Proof. reflexivity. Qed.
+
+  Theorem exec_invariants : forall fuel,
+    (forall rt obj sels o, exec_sels s frags cv fuel rt obj sels = Some o ->
+                           out_ok (sels_shape rt sels) o) /\
+    (forall rt obj fs o, exec_field s frags cv fuel rt obj fs = Some (FRes o) ->
+                         out_ok (field_shape rt fs) o) /\
+    (forall rt obj fs, exec_field s frags cv fuel rt obj fs = Some FSkip -> skip_ok rt fs) /\
+    (forall t sels d o, complete s frags cv fuel t sels d = Some o ->
+                        out_ok (shaped s frags cv t sels) o).
+  Proof.
+    induction fuel as [|f [IHs [IHf [IHk IHc]]]].
+    { repeat split; intros; discriminate. }
+    repeat split.
+    - (* exec_sels *)
+      intros rt obj sels o H. rewrite exec_sels_S in H.
+      destruct (collect s frags cv rt f sels ([], [])) as [[v g]|] eqn:Ec; [|discriminate].
+      destruct (exec_groups (exec_field s frags cv f rt obj) g) as [[[r es] cs]|] eqn:Eg; [|discriminate].
+      pose proof (exec_groups_ok rt _ g r es cs (collect_nodup _ _ _ _ _ _ _ _ Ec)
+                    (fun fs o => IHf rt obj fs o) (fun fs => IHk rt obj fs) Eg) as [Hc Hr].
+      destruct r as [kvs|]; inversion H; subst; clear H; cbn; (split; [exact Hc|]).
+      + destruct Hr as [Hsf [He _]]. split; [|exact He].
+        exists kvs. split; [reflexivity|]. eapply sho; eassumption.
+      + exact Hr.
+    - (* exec_field, a result *)
+      intros rt obj fs o H. rewrite exec_field_S in H.
+      destruct fs as [|f1 fs']; [discriminate|].
+      destruct (str_eqb (fs_name f1) n_typename) eqn:Et.
+      { inversion H; subst. cbn. split; [constructor|]. split; [|constructor].
+        left. split; [exact Et | reflexivity]. }
+      destruct (lookup_field s rt (fs_name f1)) as [fd|] eqn:El; [|discriminate].
+      assert (W : forall o', out_ok (shaped s frags cv (f_type fd) (merged_sels (f1 :: fs'))) o' ->
+                             out_ok (field_shape rt (f1 :: fs')) (catch (f_type fd) o')).
+      { intros o' Ho. apply catch_ok in Ho. eapply out_ok_weaken; [|exact Ho].
+        intros j Hj. cbn. right. split; [exact Et|]. exists fd. split; [exact El | exact Hj]. }
+      destruct (coerce_args s cv (f_args fd) (fs_args f1)) as [args|] eqn:Ea.
+      + destruct (complete s frags cv f (f_type fd) (merged_sels (f1 :: fs'))
+                    match lookup (fs_name f1) obj with Some d => d | None => DNull end)
+          as [[[r es] cs]|] eqn:Ecp; [|discriminate].
+        assert (Ho : out_ok (shaped s frags cv (f_type fd) (merged_sels (f1 :: fs')))
+                            (r, es, ([], fs_name f1, args) :: cs)).
+        { pose proof (IHc _ _ _ _ Ecp) as [Hc Hr]. split; [|exact Hr].
+          constructor; [|exact Hc]. cbn. exists rt, fd, (fs_args f1). split; assumption. }
+        injection H as <-. exact (W _ Ho).
+      + injection H as <-. exact (W _ (raise_ok _)).
+    - (* exec_field, skipped *)
+      intros rt obj fs H. rewrite exec_field_S in H.
+      destruct fs as [|f1 fs']; [exact I|]. cbn.
+      destruct (str_eqb (fs_name f1) n_typename) eqn:Et; [discriminate|].
+      destruct (lookup_field s rt (fs_name f1)) as [fd|] eqn:El.
+      + destruct (coerce_args s cv (f_args fd) (fs_args f1)); [|discriminate].
+        destruct (complete s frags cv f (f_type fd) (merged_sels (f1 :: fs')) _) as [[[r es] cs]|];
+          discriminate.
+      + split; reflexivity.
+    - (* complete *)
+      intros t sels d o H. rewrite complete_S in H.
+      assert (HN : forall t' , t = TNonNull t' ->
+                match complete s frags cv f t' sels d with
+                | None => None
+                | Some (CVal JNull, es, cs) => Some (CErr, es ++ [[]], cs)
+                | Some o => Some o
+                end = Some o -> out_ok (shaped s frags cv t sels) o).
+      { intros t' -> HH.
+        destruct (complete s frags cv f t' sels d) as [[[r es] cs]|] eqn:Ecp; [|discriminate].
+        pose proof (IHc _ _ _ _ Ecp) as [Hc Hr].
+        destruct r as [j|].
+        - destruct Hr as [Hp He].
+          destruct j; inversion HH; subst; clear HH;
+            try (split; [exact Hc|]; split; [apply sh_nonnull; [discriminate | exact Hp] | exact He]).
+          split; [exact Hc|]. intro Hnil. apply app_eq_nil in Hnil. destruct Hnil as [_ Hnil]. discriminate.
+        - inversion HH; subst. split; [exact Hc | exact Hr]. }
+      assert (HL : forall it items, t = TList it ->
+                match complete_items (fun x => option_map (catch it) (complete s frags cv f it sels x)) items O with
+                | None => None
+                | Some (Some js, es, cs) => Some (CVal (JList js), es, cs)
+                | Some (None, es, cs) => Some (CErr, es, cs)
+                end = Some o -> out_ok (shaped s frags cv t sels) o).
+      { intros it items -> HH.
+        destruct (complete_items _ items O) as [[[r es] cs]|] eqn:Ei; [|discriminate].
+        pose proof (complete_items_ok (shaped s frags cv it sels)
+                      (fun x => option_map (catch it) (complete s frags cv f it sels x)) items O r es cs) as Hi.
+        destruct Hi as [Hc Hr]; [|exact Ei|].
+        { intros x o' _ Hx. destruct (complete s frags cv f it sels x) as [o0|] eqn:E0; [|discriminate].
+          cbn in Hx. inversion Hx; subst. apply catch_ok. eapply IHc. exact E0. }
+        destruct r as [js|]; inversion HH; subst; clear HH; (split; [exact Hc|]).
+        - destruct Hr as [Hp He]. split; [apply sh_list; exact Hp | apply hits_from_zero; exact He].
+        - exact Hr. }
+      assert (HO : forall n rt flds, t = TNamed n -> runtime_of s n rt ->
+                exec_sels s frags cv f rt flds sels = Some o -> out_ok (shaped s frags cv t sels) o).
+      { intros n rt flds -> Hrt HH. apply IHs in HH. eapply out_ok_weaken; [|exact HH].
+        intros j [kvs [-> Hso]]. eapply sh_obj; eassumption. }
+      destruct d as [|l|rtn flds|items|].
+      + (* DNull *)
+        destruct t as [n|it|t'].
+        * inversion H; subst. apply null_ok. reflexivity.
+        * inversion H; subst. apply null_ok. reflexivity.
+        * eapply HN; [reflexivity | exact H].
+      + (* DLeaf *)
+        destruct t as [n|it|t']; [| inversion H; subst; apply raise_ok | eapply HN; [reflexivity | exact H]].
+        destruct (lookup_type s n) as [td|] eqn:El; [|inversion H; subst; apply raise_ok].
+        destruct td as [sc|vals|ofs ifs|ifs|ms]; try (inversion H; subst; apply raise_ok).
+        * destruct (complete_leaf (TScalar sc) l) as [j|] eqn:Ecl; inversion H; subst; [|apply raise_ok].
+          split; [constructor|]. split; [|constructor].
+          eapply sh_leaf; [exact El | eapply complete_leaf_json; exact Ecl].
+        * destruct (complete_leaf (TEnum vals) l) as [j|] eqn:Ecl; inversion H; subst; [|apply raise_ok].
+          split; [constructor|]. split; [|constructor].
+          eapply sh_leaf; [exact El | eapply complete_leaf_json; exact Ecl].
+      + (* DObj *)
+        destruct t as [n|it|t']; [| inversion H; subst; apply raise_ok | eapply HN; [reflexivity | exact H]].
+        destruct (lookup_type s n) as [td|] eqn:El; [|inversion H; subst; apply raise_ok].
+        destruct td as [sc|vals|ofs ifs|ifs|ms]; try (inversion H; subst; apply raise_ok).
+        * eapply HO; [reflexivity | | exact H]. left. split; [eapply is_object_of_lookup; exact El | reflexivity].
+        * destruct (is_object s rtn && possible s n rtn) eqn:Ep; [|inversion H; subst; apply raise_ok].
+          apply andb_true_iff in Ep. eapply HO; [reflexivity | | exact H]. right. exact Ep.
+        * destruct (is_object s rtn && possible s n rtn) eqn:Ep; [|inversion H; subst; apply raise_ok].
+          apply andb_true_iff in Ep. eapply HO; [reflexivity | | exact H]. right. exact Ep.
+      + (* DList *)
+        destruct t as [n|it|t']; [| eapply HL; [reflexivity | exact H] | eapply HN; [reflexivity | exact H]].
+        destruct (lookup_type s n) as [td|] eqn:El; [|inversion H; subst; apply raise_ok].
+        destruct td as [sc|vals|ofs ifs|ifs|ms]; inversion H; subst; apply raise_ok.
+      + (* DRaise *)
+        inversion H; subst. apply raise_ok.
+  Qed.
+End Invariants.
+
+(* ------------------------------------------------------------------ whole responses *)
+
+Definition field_known (s : schema) (rt : str) (e : str * list fieldsel) : bool :=
+  match snd e with
+  | [] => false
+  | f1 :: _ =>
+    str_eqb (fs_name f1) n_typename ||
+    match lookup_field s rt (fs_name f1) with Some _ => true | None => false end
+  end.
+
+(* the keys of a response object: the collected response keys whose field the runtime type defines *)
+Lemma shaped_fields_keys s frags cv rt g kvs :
+  shaped_fields s frags cv rt g kvs -> keys kvs = keys (filter (field_known s rt) g).
+Proof.
+  induction 1; cbn [filter field_known snd keys map fst].
+  - reflexivity.
+  - exact IHshaped_fields.
+  - rewrite H, H0. cbn. exact IHshaped_fields.
+  - rewrite H. cbn. f_equal. exact IHshaped_fields.
+  - rewrite H, H0. cbn. f_equal. exact IHshaped_fields.
+Qed.
+
+Lemma shaped_null_nullable s frags cv t sels :
+  shaped s frags cv t sels JNull -> is_nonnull t = false.
+Proof.
+  intro H. inversion H; subst; try reflexivity; try assumption; congruence.
+Qed.
+
+(* what a response is made of *)
+Lemma execute_fuel_resp fuel s d vars root j es cs :
+  execute_fuel fuel s d vars root = Resp j es cs ->
+  exists cv tn r,
+    coerce_variable_values s (d_vars d) vars = Some cv /\
+    root_type s (d_kind d) = Some tn /\ is_object s tn = true /\
+    exec_sels s (d_frags d) cv fuel tn (match root with DObj _ f => f | _ => [] end) (d_sels d)
+      = Some (r, es, cs) /\
+    j = match r with CVal j' => j' | CErr => JNull end.
+Proof.
+  unfold execute_fuel.
+  destruct (coerce_variable_values s (d_vars d) vars) as [cv|]; [|discriminate].
+  destruct (root_type s (d_kind d)) as [tn|]; [|discriminate].
+  destruct (is_object s tn) eqn:Eo; cbn [negb]; [|discriminate].
+  destruct (exec_sels s (d_frags d) cv fuel tn _ (d_sels d)) as [[[r es'] cs']|] eqn:E; [|discriminate].
+  intro H. exists cv, tn, r.
+  destruct r; inversion H; subst; repeat split; try reflexivity; assumption.
+Qed.
+
+Theorem response_invariants fuel s d vars root j es cs :
+  execute_fuel fuel s d vars root = Resp j es cs ->
+  exists cv tn,
+    coerce_variable_values s (d_vars d) vars = Some cv /\ root_type s (d_kind d) = Some tn /\
+    (* shape *)
+    (j = JNull \/ exists kvs, j = JObj kvs /\ shaped_obj s (d_frags d) cv tn (d_sels d) kvs) /\
+    (* every error path leads to a null *)
+    Forall (fun e => hits_null e j = true) es /\
+    (* a null response has an error *)
+    (j = JNull -> es <> []) /\
+    (* resolver arguments *)
+    Forall (call_ok s cv) cs.
+Proof.
+  intro H. apply execute_fuel_resp in H. destruct H as [cv [tn [r [Hcv [Hrt [Ho [He ->]]]]]]].
+  exists cv, tn. split; [exact Hcv|]. split; [exact Hrt|].
+  destruct (exec_invariants s (d_frags d) cv fuel) as [Hs _].
+  specialize (Hs _ _ _ _ He). cbn in Hs. destruct Hs as [Hc Hr].
+  destruct r as [j|].
+  - destruct Hr as [[kvs [-> Hso]] Hes]. repeat split.
+    + right. exists kvs. split; [reflexivity | exact Hso].
+    + exact Hes.
+    + discriminate.
+    + exact Hc.
+  - repeat split.
+    + left. reflexivity.
+    + apply Forall_forall. intros e _. destruct e; reflexivity.
+    + intros _. exact Hr.
+    + exact Hc.
+Qed.
+
+(* data is null exactly when a field error propagated through the root selection set *)
+Definition root_propagated (fuel : nat) (s : schema) (d : document) (vars : list (str * value))
+  (root : data) : Prop :=
+  exists cv tn es cs,
+    coerce_variable_values s (d_vars d) vars = Some cv /\ root_type s (d_kind d) = Some tn /\
+    exec_sels s (d_frags d) cv fuel tn (match root with DObj _ f => f | _ => [] end) (d_sels d)
+      = Some (CErr, es, cs).
+
+Theorem null_iff_propagated fuel s d vars root j es cs :
+  execute_fuel fuel s d vars root = Resp j es cs ->
+  (j = JNull <-> root_propagated fuel s d vars root).
+Proof.
+  intro H. apply execute_fuel_resp in H. destruct H as [cv [tn [r [Hcv [Hrt [Ho [He ->]]]]]]].
+  split.
+  - intro Hn. destruct r as [j|].
+    + destruct (exec_invariants s (d_frags d) cv fuel) as [Hs _].
+      specialize (Hs _ _ _ _ He). cbn in Hs. destruct Hs as [_ [[kvs [-> _]] _]]. discriminate.
+    + exists cv, tn, es, cs. repeat split; assumption.
+  - intros [cv' [tn' [es' [cs' [Hcv' [Hrt' He']]]]]].
+    rewrite Hcv in Hcv'. inversion Hcv'; subst. rewrite Hrt in Hrt'. inversion Hrt'; subst.
+    rewrite He in He'. inversion He'; subst. reflexivity.
+Qed.
+
+(* CollectFields: the grouped field set is the in-order grouping of the visited fields; its keys are
+   the distinct response keys in order of first appearance *)
+Theorem collect_first_appearance s frags cv tn fuel sels v g :
+  collect s frags cv tn fuel sels ([], []) = Some (v, g) ->
+  exists fl, collect_flat s frags cv tn fuel sels ([], []) = Some (v, fl) /\
+             g = group fl /\ keys g = first_occ (map fst fl) /\ NoDup (keys g).
+Proof.
+  intro H. pose proof (collect_is_group_of_flat s frags cv tn fuel sels) as G.
+  destruct (collect_flat s frags cv tn fuel sels ([], [])) as [[v' fl]|].
+  - rewrite H in G. inversion G; subst. exists fl. repeat split.
+    + apply group_keys.
+    + eapply collect_nodup. exact H.
+  - rewrite H in G. discriminate.
 Qed.
